@@ -85,7 +85,14 @@ ANNOT = [('x: int = 1', dict(remove_variable_annotations=True), 'x = 1'), ('x: i
          ('def f():\n x: int = 1\n y: int', dict(remove_variable_annotations=True), 'def f():\n x = 1\n y: 0'),
          ('x: int = 1', dict(remove_class_attribute_annotations=True), 'x: int = 1'),
          # a dataclass field declared inside a block of the class body is still a field (known finding: treated as a plain variable)
-         ('@dataclass\nclass A:\n if 1:\n  x: int = 1', dict(remove_variable_annotations=True), '@dataclass\nclass A:\n if 1:\n  x: int = 1'), ('(x): int = 1', dict(remove_variable_annotations=True), 'x = 1')]
+         ('@dataclass\nclass A:\n if 1:\n  x: int = 1', dict(remove_variable_annotations=True), '@dataclass\nclass A:\n if 1:\n  x: int = 1'), ('(x): int = 1', dict(remove_variable_annotations=True), 'x = 1'),
+         # a field declared inside a block of the class body is still a field / class attribute (repaired in 9ef57d1)
+         ('@dataclass\nclass A:\n if 1:\n  x: int = 1', dict(remove_variable_annotations=True, remove_class_attribute_annotations=True), '@dataclass\nclass A:\n if 1:\n  x: int = 1'),
+         ('class A(NamedTuple):\n try:\n  x: int = 1\n finally:\n  pass', dict(remove_variable_annotations=True, remove_class_attribute_annotations=True),
+          'class A(NamedTuple):\n try:\n  x: int = 1\n finally:\n  pass'),
+         ('class A:\n if 1:\n  x: int = 1', dict(remove_variable_annotations=True), 'class A:\n if 1:\n  x: int = 1'),
+         ('class A:\n if 1:\n  x: int = 1', dict(remove_class_attribute_annotations=True), 'class A:\n if 1:\n  x = 1'),
+         ('class A:\n def f(self):\n  if 1:\n   x: int = 1', dict(remove_class_attribute_annotations=True), 'class A:\n def f(self):\n  if 1:\n   x: int = 1')]
 
 
 def same(a, b):
